@@ -109,6 +109,61 @@ func verifFixtureParsedSizeChecked(c *ColFixedStr, s string) error {
 	return nil
 }
 
+// C06.infer-cache: the remembered type survives a half-done re-configuration.
+type verifFixtureCacheBad struct {
+	t    ColumnType
+	base ColumnType
+}
+
+func (e *verifFixtureCacheBad) Infer(t ColumnType) error {
+	if t == e.t {
+		return nil
+	}
+	e.base = t.Base()
+	if t.Elem() == "" {
+		return errors.New("no elements")
+	}
+	e.t = t
+	return nil
+}
+
+// C06.infer-cache negative control: the key is dropped before anything else changes.
+type verifFixtureCacheGood struct {
+	t    ColumnType
+	base ColumnType
+}
+
+func (e *verifFixtureCacheGood) Infer(t ColumnType) error {
+	if t == e.t {
+		return nil
+	}
+	e.t = ""
+	e.base = t.Base()
+	if t.Elem() == "" {
+		return errors.New("no elements")
+	}
+	e.t = t
+	return nil
+}
+
+// chain-scratch: a per-row scratch buffer chained by reference and refilled.
+func verifFixtureChainScratch(w *Writer, vals []uint64) {
+	buf := make([]byte, 10)
+	for _, v := range vals {
+		buf[0] = byte(v)
+		w.ChainWrite(buf[:1])
+	}
+}
+
+// chain-scratch negative control: a fresh buffer per row.
+func verifFixtureChainFresh(w *Writer, vals []uint64) {
+	for _, v := range vals {
+		buf := make([]byte, 10)
+		buf[0] = byte(v)
+		w.ChainWrite(buf[:1])
+	}
+}
+
 // C08: interprets a partial read.
 func verifFixtureRawRead(r io.Reader, buf []byte) (int, error) {
 	n, err := r.Read(buf)
@@ -119,10 +174,29 @@ func verifFixtureRawRead(r io.Reader, buf []byte) (int, error) {
 }
 `
 
+const fixtureFileCh = "zz_verif_fixture.go"
+
+const fixtureSrcCh = `package ch
+
+import "net"
+
+// C11.conn-channel: a dialed connection handed over through a channel.
+func verifFixtureConnOverChannel(dial func() (net.Conn, error)) chan net.Conn {
+	out := make(chan net.Conn, 1)
+	go func() {
+		conn, err := dial()
+		if err == nil {
+			out <- conn
+		}
+	}()
+	return out
+}
+`
+
 // fixtureProgram loads the default configuration with the fixture file overlaid.
 func fixtureProgram(c *Ctx) *core.Program {
 	path := filepath.Join(c.Repo, fixtureFile)
-	ov := map[string][]byte{path: []byte(fixtureSrc)}
+	ov := map[string][]byte{path: []byte(fixtureSrc), filepath.Join(c.Repo, fixtureFileCh): []byte(fixtureSrcCh)}
 	for k, v := range c.Overlay {
 		ov[k] = v
 	}
@@ -155,6 +229,8 @@ func runFixtures(c *Ctx, prop string) {
 	}
 	var e6, e4, raw, conf []exp
 	switch prop {
+	case "C11", "C13", "C16":
+		raw = nil
 	case "C06":
 		conf = []exp{{"verifFixtureParsedSize", true}, {"verifFixtureParsedSizeChecked", false}}
 	case "C07":
@@ -226,6 +302,44 @@ func runFixtures(c *Ctx, prop string) {
 				got = !x.bad
 			}
 			record(x.fn, "C06.config parsed configuration", x.bad, got)
+		}
+	}
+	if prop == "C11" || prop == "C13" {
+		got := false
+		for _, fn := range p.Funcs() {
+			if fn.Parent() != nil && strings.HasPrefix(fn.Parent().Name(), "verifFixtureConnOverChannel") || strings.HasPrefix(fn.Name(), "verifFixtureConnOverChannel") {
+				if len(connSends(fn)) > 0 {
+					got = true
+				}
+			}
+		}
+		record("verifFixtureConnOverChannel", "conn-channel", true, got)
+	}
+	if prop == "C14" || prop == "C16" {
+		for name, want := range map[string]bool{"verifFixtureChainScratch": true, "verifFixtureChainFresh": false} {
+			fn := fns[name]
+			got := false
+			if fn != nil {
+				_, later := chainScratch(fn)
+				for _, l := range later {
+					if l != nil {
+						got = true
+					}
+				}
+			} else {
+				got = !want
+			}
+			record(name, "chain-scratch", want, got)
+		}
+	}
+	if prop == "C06" {
+		for _, fn := range p.Funcs() {
+			nm := core.RecvNamed2(fn)
+			if nm == nil || fn.Name() != "Infer" || !strings.HasPrefix(nm.Obj().Name(), "verifFixtureCache") {
+				continue
+			}
+			_, leaks := inferCacheLeaks(fn)
+			record(nm.Obj().Name()+".Infer", "C06.infer-cache", nm.Obj().Name() == "verifFixtureCacheBad", len(leaks) > 0)
 		}
 	}
 	for _, x := range raw {
